@@ -123,11 +123,29 @@ func checkC04(c *core.Ctx) error {
 				c.Unknown(variant.rule, cons, "function found", token.NoPos, "not found")
 				continue
 			}
+			type sizeMask struct {
+				n    int
+				mask []bool
+			}
+			var cases []sizeMask
 			for _, n := range sizes {
+				all := make([]bool, n)
+				for i := range all {
+					all[i] = true
+				}
+				cases = append(cases, sizeMask{n, all})
+			}
+			cases = append(cases, sizeMask{3, []bool{true, false, true}}) // Submatrix option: rows/columns 0 and 2 only
+			for _, sm := range cases {
+				n := sm.n
+				act := func(i int) bool { return sm.mask[i] }
 				tag := fmt.Sprintf("[n=%d]", n)
+				if !act(1) {
+					tag = "[n=3, submatrix {0,2}]"
+				}
 				sub := &vn.ListVal{}
 				for i := 0; i < n; i++ {
-					sub.Elems = append(sub.Elems, &vn.BoolVal{Known: true, V: true})
+					sub.Elems = append(sub.Elems, &vn.BoolVal{Known: true, V: sm.mask[i]})
 				}
 				var bs []*sym.Term
 				for i := 0; i < n; i++ {
@@ -180,8 +198,16 @@ func checkC04(c *core.Ctx) error {
 					bad := ""
 					for i := 0; i < n && bad == ""; i++ {
 						for j := 0; j < n && bad == ""; j++ {
+							if !act(i) || !act(j) {
+								// entries outside the selected sub-matrix are not part of the defining equations (the final row
+								// permutation moves whole physical rows, so they may be exchanged between selected rows)
+								continue
+							}
 							s := sym.Zero()
 							for k := 0; k < n; k++ {
+								if !act(k) {
+									continue
+								}
 								if xm.Cell(k, j) == nil {
 									bad = "x has an unset cell"
 									break
@@ -200,8 +226,14 @@ func checkC04(c *core.Ctx) error {
 					c.Check(bad == "", variant.rule, cons, "A*X_out = X_in "+tag+br, fd.Pos(), bad+": on this pivot branch the routine does not return the solution of the matrix equation (for X_in = I: not the inverse)")
 					bad = ""
 					for i := 0; i < n && bad == ""; i++ {
+						if !act(i) {
+							continue
+						}
 						s := sym.Zero()
 						for k := 0; k < n; k++ {
+							if !act(k) {
+								continue
+							}
 							if bv.Cell(k) == nil {
 								bad = "b has an unset cell"
 								break
@@ -221,6 +253,9 @@ func checkC04(c *core.Ctx) error {
 								if i == j {
 									want = sym.One()
 								}
+								if !act(i) || !act(j) {
+									continue
+								}
 								if t := am.Cell(i, j); t == nil || !sym.Equal(t, want) {
 									bad = fmt.Sprintf("a_out[%d,%d] = %s", i, j, shortTerm(t))
 								}
@@ -230,9 +265,9 @@ func checkC04(c *core.Ctx) error {
 					}
 				}
 				c.Check(nGood >= 1, variant.rule, cons, "has a successful branch "+tag, fd.Pos(), "no successful branch")
-				c.Analysed[fmt.Sprintf("%s_branches_n%d", variant.fn, n)] = nGood
+				c.Analysed[fmt.Sprintf("%s_branches_%s", variant.fn, tag)] = nGood
 				if nDegenerate > 0 {
-					c.Analysed[fmt.Sprintf("%s_degenerate_branches_skipped_n%d", variant.fn, n)] = nDegenerate
+					c.Analysed[fmt.Sprintf("%s_degenerate_branches_skipped_%s", variant.fn, tag)] = nDegenerate
 				}
 			}
 		}
@@ -312,5 +347,201 @@ func checkC04(c *core.Ctx) error {
 				"the cofactor expansion yields "+shortTerm(got)+", the determinant is "+shortTerm(want))
 		}
 	}
+	checkInverseRun(c, d)
+	checkDeterminantRun(c, d)
 	return nil
+}
+
+// checkDeterminantRun (C04.R5): determinant.Run with its options on a generic symmetric 2x2 matrix: the default route
+// (cofactors), PositiveDefinite (product of the squared Cholesky diagonal) and PositiveDefinite+LogScale (its logarithm)
+// all equal a_00*a_11 - a_10^2 (resp. its logarithm).
+func checkDeterminantRun(c *core.Ctx, d *declIndex) {
+	c.Rule("C04.R5", "determinant.Run: the default, PositiveDefinite and PositiveDefinite+LogScale routes agree with the Leibniz determinant (log-determinant equal to its logarithm) on a generic symmetric 2x2 matrix", 3)
+	p := c.Pkg("algorithm/determinant")
+	cons := "algorithm/determinant.Run"
+	if p == nil {
+		c.Unknown("C04.R5", cons, "package loaded", token.NoPos, "not loaded")
+		return
+	}
+	fd := findFuncDecl(p, "Run")
+	tPD, tLS := namedType(p, "PositiveDefinite"), namedType(p, "LogScale")
+	if fd == nil || tPD == nil || tLS == nil {
+		c.Unknown("C04.R5", cons, "function and option types found", token.NoPos, "not found")
+		return
+	}
+	const n = 2
+	A := func(i, j int) *sym.Term {
+		if j > i {
+			i, j = j, i
+		}
+		return symf("a_%d_%d", i, j)
+	}
+	det := leibniz(n, A)
+	opt := func(t types.Type) vn.Value {
+		return &vn.StructVal{T: t, Fields: map[string]vn.Value{"Value": &vn.BoolVal{Known: true, V: true}}}
+	}
+	for _, md := range []struct {
+		name string
+		args []vn.Value
+		log  bool
+	}{{"default", nil, false}, {"PositiveDefinite", []vn.Value{opt(tPD)}, false}, {"PositiveDefinite, LogScale", []vn.Value{opt(tPD), opt(tLS)}, true}} {
+		tag := "[" + md.name + "]"
+		cfg := vn.Config{Pkg: p, TypeName: "Real64", Spec: distSpec, InlineOps: inlineOps, Decl: d.find, ParamNames: true, MaxDepth: 10, UnrollConst: true, FiniteSyms: true,
+			Borrow: c04Borrow(c.Root), ParamFresh: true, ParamList: []vn.Value{vn.NewLocalMat(n, n, A), &vn.ListVal{Elems: md.args}}}
+		paths, und := vn.Run(cfg, fd)
+		if und != nil {
+			c.Unknown("C04.R5", cons, "interpreted "+tag, und.Pos, "Run left the interpreter's idiom set: "+und.Msg)
+			continue
+		}
+		nGood := 0
+		for _, pa := range paths {
+			ret, _ := pa.Ret.(vn.Tuple)
+			if len(ret) != 2 || pa.Panic {
+				continue
+			}
+			if _, isErr := ret[1].(*vn.ErrVal); isErr {
+				continue
+			}
+			l, _ := ret[0].(*vn.Loc)
+			if l == nil {
+				continue
+			}
+			nGood++
+			got := l.Val
+			ok := false
+			if md.log {
+				e := foldRoots(sym.Fn("exp", got))
+				ok = sym.Equal(e, det) || sym.Equal(foldRoots(sym.Fn("exp", sym.LogExpand(got))), det)
+			} else {
+				ok = sym.Equal(got, det) || sym.Equal(foldRoots(got), det)
+			}
+			c.Check(ok, "C04.R5", cons, "equals the determinant "+tag, fd.Pos(),
+				"Run returns "+shortTerm(foldRoots(got))+" where the determinant is "+det.String()+" (its logarithm on the log scale)")
+		}
+		c.Check(nGood == 1, "C04.R5", cons, "exactly one successful path "+tag, fd.Pos(), fmt.Sprintf("%d successful paths", nGood))
+	}
+}
+
+// checkInverseRun (C04.R4): matrixInverse.Run interpreted with its option dispatch: no option, UpperTriangular{true}
+// and PositiveDefinite{true}, each with a fresh InSitu and with a caller-supplied InSitu whose buffers hold the stale
+// contents of an earlier call. The result X must satisfy A*X = I (n = 2, 3 for the general and triangular routes, n = 2
+// for the Cholesky route, whose radicals are eliminated by r^2 = radicand).
+func checkInverseRun(c *core.Ctx, d *declIndex) {
+	c.Rule("C04.R4", "matrixInverse.Run with its options (none, UpperTriangular, PositiveDefinite) and with fresh or reused in-situ buffers returns X with A*X = I", 8)
+	p := c.Pkg("algorithm/matrixInverse")
+	cons := "algorithm/matrixInverse.Run"
+	if p == nil {
+		c.Unknown("C04.R4", cons, "package loaded", token.NoPos, "not loaded")
+		return
+	}
+	fd := findFuncDecl(p, "Run")
+	if fd == nil {
+		c.Unknown("C04.R4", cons, "function found", token.NoPos, "not found")
+		return
+	}
+	tInSitu, tUT, tPD := namedType(p, "InSitu"), namedType(p, "UpperTriangular"), namedType(p, "PositiveDefinite")
+	if tInSitu == nil || tUT == nil || tPD == nil {
+		c.Unknown("C04.R4", cons, "option types found", fd.Pos(), "InSitu/UpperTriangular/PositiveDefinite not found")
+		return
+	}
+	type mode struct {
+		name  string
+		upper bool
+		pd    bool
+		sizes []int
+	}
+	for _, md := range []mode{{"no option", false, false, []int{2, 3}}, {"UpperTriangular", true, false, []int{2, 3}}, {"PositiveDefinite", false, true, []int{2}}} {
+		for _, n := range md.sizes {
+			for _, reuse := range []bool{false, true} {
+				tag := fmt.Sprintf("[%s, n=%d, fresh buffers]", md.name, n)
+				if reuse {
+					tag = fmt.Sprintf("[%s, n=%d, reused in-situ buffers]", md.name, n)
+				}
+				A := func(i, j int) *sym.Term {
+					if md.upper && j < i {
+						return sym.Zero()
+					}
+					if md.pd && j > i {
+						i, j = j, i
+					}
+					return symf("a_%d_%d", i, j)
+				}
+				args := &vn.ListVal{}
+				if md.upper {
+					args.Elems = append(args.Elems, &vn.StructVal{T: tUT, Fields: map[string]vn.Value{"Value": &vn.BoolVal{Known: true, V: true}}})
+				}
+				if md.pd {
+					args.Elems = append(args.Elems, &vn.StructVal{T: tPD, Fields: map[string]vn.Value{"Value": &vn.BoolVal{Known: true, V: true}}})
+				}
+				if reuse {
+					var bs []*sym.Term
+					for i := 0; i < n; i++ {
+						bs = append(bs, symf("stale_b_%d", i))
+					}
+					in := &vn.StructVal{T: types.NewPointer(tInSitu), Fields: map[string]vn.Value{
+						"Id": staleMat(n, n, "id"), "A": staleMat(n, n, "wa"), "B": vn.NewLocalVec(bs...)}}
+					args.Elems = append(args.Elems, in)
+				}
+				cfg := vn.Config{Pkg: p, TypeName: "Real64", Spec: distSpec, InlineOps: inlineOps, Decl: d.find, ParamNames: true, MaxDepth: 10, UnrollConst: true, FiniteSyms: true,
+					Borrow: c04Borrow(c.Root), ParamFresh: true, ParamList: []vn.Value{vn.NewLocalMat(n, n, A), args}}
+				paths, und := vn.Run(cfg, fd)
+				if und != nil {
+					c.Unknown("C04.R4", cons, "interpreted "+tag, und.Pos, "Run left the interpreter's idiom set: "+und.Msg)
+					continue
+				}
+				nGood := 0
+				for _, pa := range paths {
+					ret, _ := pa.Ret.(vn.Tuple)
+					if len(ret) != 2 {
+						continue
+					}
+					if _, isErr := ret[1].(*vn.ErrVal); isErr {
+						continue
+					}
+					degenerate := false
+					for _, cv := range pa.Conds {
+						if cv.C.Op == "eq" && cv.V {
+							degenerate = true
+						}
+					}
+					if degenerate {
+						continue
+					}
+					br := "[" + shortConds(pa.CondString()) + "]"
+					if pa.Panic {
+						c.Fail("C04.R4", cons, "no panic on a generic matrix "+tag+br, fd.Pos(), "a branch panics on a generic input")
+						continue
+					}
+					X, _ := ret[0].(*vn.LocalMat)
+					if X == nil {
+						c.Unknown("C04.R4", cons, "result is a matrix "+tag+br, fd.Pos(), "result is not a local matrix")
+						continue
+					}
+					nGood++
+					bad := ""
+					for i := 0; i < n && bad == ""; i++ {
+						for j := 0; j < n && bad == ""; j++ {
+							s := sym.Zero()
+							for k := 0; k < n; k++ {
+								if X.Cell(k, j) == nil {
+									bad = "the result has an unset cell"
+									break
+								}
+								s = sym.Add(s, sym.Mul(A(i, k), X.Cell(k, j)))
+							}
+							want := sym.Zero()
+							if i == j {
+								want = sym.One()
+							}
+							if bad == "" && (!staleFree(s) || !(sym.Equal(s, want) || sym.Equal(foldRoots(s), want))) {
+								bad = fmt.Sprintf("(A*X)[%d,%d] = %s", i, j, shortTerm(foldRoots(s)))
+							}
+						}
+					}
+					c.Check(bad == "", "C04.R4", cons, "A*X = I "+tag+br, fd.Pos(), bad+": the returned matrix is not the inverse (a stale entry of a reused buffer, or a wrong route through the option dispatch)")
+				}
+				c.Check(nGood >= 1, "C04.R4", cons, "has a successful generic branch "+tag, fd.Pos(), "no successful branch")
+			}
+		}
+	}
 }
